@@ -34,6 +34,12 @@ def run(prog, job: dict) -> dict:
         arity = 3 if physical == 1 else 4
         n = 7
         stmts = [tuple(C.base(f"s{i}", arity)) for i in range(n)]
+        if job.get("workload") == "one-row":
+            # after the first statement every statement adds exactly one row (same subject, predicate and graph, a fresh
+            # blank-node object): the number of pending rows passes through every value, also exactly frame_size
+            n = 9
+            first = C.base("s0", arity)
+            stmts = [tuple(first[:2] + [P.t_bnode(f"o{i}")] + first[3:]) for i in range(n)]
         if job.get("explicit_flow"):
             # the caller supplies the bounded flow: its own frame_size is the bound, options.frame_size is irrelevant
             fl = k.flow("FlatTriplesFrameFlow" if physical == 1 else "FlatQuadsFrameFlow", frame_size=fs)
@@ -154,6 +160,8 @@ def check(chk: Check) -> None:
             for logical in (flat_lt, None):
                 for fs in ((1, 2, 3, 4, 5, 6, 7, 8, 9, 12, 250) if chk.tier == "thorough" else (1, 3, 6, 250)):
                     jobs.append(dict(name=name, integ=integ, kind=kind, physical=physical, frame_size=fs, logical=logical))
+            for fs in (2, 3, 4):
+                jobs.append(dict(name=name + " [one row per statement]", integ=integ, kind=kind, physical=physical, frame_size=fs, logical=flat_lt, workload="one-row"))
             if kind == "stream_frames":
                 for fs in (1, 3, 6):
                     jobs.append(dict(name=name + " [caller-supplied flow]", integ=integ, kind=kind, physical=physical, frame_size=fs, logical="explicit-flow", explicit_flow=True))
